@@ -119,6 +119,22 @@ def encoder_modules(pvl, rng):
             mods.append(gen_module(rng, d, 80, col).module)
     mods.append(col.PVLModule([("g", col.PVLGroup([("a", 1)])), ("k", "two words")]))
     mods.append(col.PVLModule([("t", "both \" and '")]))
+    # "equal twins": values that compare equal (and hash alike) but are written
+    # differently - a reused instance must not hand back the earlier text
+    import datetime as dt
+    import decimal
+    Q = col.Quantity
+    tz5 = dt.timezone(dt.timedelta(hours=5))
+    twins = [
+        (0.0, -0.0), (Q(15, "m"), Q(15.0, "m")), (frozenset({1}), frozenset({1.0})),
+        (decimal.Decimal("2.50"), decimal.Decimal("2.5")), (1, 1.0),
+        (dt.datetime(2001, 1, 1, 12, 0, tzinfo=dt.timezone.utc),
+         dt.datetime(2001, 1, 1, 17, 0, tzinfo=tz5)),
+        ([1, 2.0], [1.0, 2]),
+    ]
+    for a, b in twins:
+        mods.append(col.PVLModule([("x", a), ("y", "same")]))
+        mods.append(col.PVLModule([("x", b), ("y", "same")]))
     return mods
 
 
@@ -132,9 +148,14 @@ def observe_encode(enc, module):
 def encoder_histories(rec, hb, pvl, tier, seed, part, nparts):
     rng = random.Random(f"C16-enc-{seed}")
     mods = encoder_modules(pvl, rng)
-    hists = [h for n in (2, 3) for h in itertools.product(range(len(mods)), repeat=n)]
+    base = len(mods) - 14      # the 14 trailing modules are the equal twins
+    hists = [h for n in (2, 3) for h in itertools.product(range(base), repeat=n)]
     if tier == "quick":
         hists = [h for k, h in enumerate(hists) if k % 3 == 0]
+    for t in range(base, len(mods), 2):
+        hists += [(t, t + 1), (t + 1, t), (t, 0, t + 1), (t + 1, t, t + 1)]
+    if tier == "thorough":
+        hists += [h for h in itertools.product(range(base, len(mods)), repeat=2)]
     n = 0
     for dialect in DIALECTS:
         cfgs = [{}, gen_config(rng, dialect)]
